@@ -276,8 +276,8 @@ pub fn run(ctx: &Ctx, rep: &mut Report) {
                 "deployer" => Some(deployer.clone()),
                 _ => Some(w.its.clone()),
             };
-            let name: Vec<u8> = rng.pick(&[b"Token A".to_vec(), "Жетон 🪙".as_bytes().to_vec(), b"t".to_vec()]).clone();
-            let symbol: Vec<u8> = rng.pick(&[b"TKA".to_vec(), b"T".to_vec()]).clone();
+            let name: Vec<u8> = rng.pick(&[b"Token A".to_vec(), "Жетон 🪙".as_bytes().to_vec(), b"t".to_vec(), vec![b'N'; 33], "Длинное имя жетона, длиннее тридцати двух байт".as_bytes().to_vec(), vec![b'n'; 200]]).clone();
+            let symbol: Vec<u8> = rng.pick(&[b"TKA".to_vec(), b"T".to_vec(), vec![b'S'; 33], vec![b's'; 100]]).clone();
             let decimals: u32 = *rng.pick(&[0u32, 7, 18, 255]);
             // now and then: a local deployment with metadata the token cannot represent; the
             // statement does not say whether the service or the token refuses, but nothing may remain
